@@ -11,7 +11,9 @@ from vlib.coqlit import cstr, cN, cz, cnat, cbool, clist, copt, cpair, cbytes
 ID = "C15"
 COQ_PROPS = "Props/C15.v"
 THEOREMS = ["C15_partition", "C15_never", "C15_never_default", "C15_injective", "C15_injective_refuted_without_hyp",
-            "C15_values", "C15_values_conversion", "C15_values_default_numeric", "C15_deterministic"]
+            "C15_values", "C15_values_conversion", "C15_values_default_numeric", "C15_deterministic",
+            "C15_decl_agree", "C15_decl_keys", "C15_decl_pieces", "C15_json_serialisable", "C15_appears",
+            "C15_private_enabled", "C15_fuel_total"]
 ALLOWED_AXIOMS = []
 RULE = ("in-memory pydicom datasets over CS LO SH DS IS US SS UL SL FL FD UI PN DA TM AT OB OW UN SQ(depth<=3) x VM {0,1,n}, "
         "empty/None/blank values, private blocks at reserved slots 0x10..0xff with and without registered translators "
@@ -24,7 +26,10 @@ TRUSTED_BASE = [
     "pydicom 3 as the provider of each element's tag, VR, VM, keyword, name and value object (inputs of the model, captured per case)",
     "get_text is an input of the model (`c_get_text`); with chardet absent it is instantiated by the printable-ASCII rule of is_ascii",
     "translation functions are inputs of the model (`t_fun`); the test translators of props/c15.py are mirrored in Extract/Corr.v `test_trans_fun`; nibabel's csareader is represented only by 'raises on a blob that is not a CSA header'",
-    "repr(float) tokens stand for floating point values (compared as strings, never as floats)",
+    "floating point values are carried both as exact rationals (Common.PyNum fval, compared with Qeq) and as repr tokens (for str(float) and the sign of zero)",
+    "Common/PyNum.v py_float / py_int as models of float(str) / int(str): on every case the check verifies that a single DS / IS value carrying its text (original_string) has the value py_float(text) / py_int(text) -- the hypothesis of C15_values_default_numeric",
+    "pydicom names an element 'Private Creator' iff group odd and element in 0x10..0xff (Decl.names_wf, hypothesis of C15_decl_*): verified on every case at every nesting level",
+    "'extraction does not alter pixel data' has no content in the (pure) model; it is harness-checked on every case (pixel_same)",
 ]
 ASSUMPTIONS = [
     "Python 3: the struct.unpack branch of _get_elem_value is reachable only with a text value under a numeric VR and then raises TypeError (modelled as EType); byte strings are never unpacked",
